@@ -515,7 +515,8 @@ def run_hashseed(tier, seed, spec, col):
         args = [a for a in argv_for(ds, prog, cores=1, mseed=SEEDS[spec["dataset"] % 2])]
         if short:
             # replace the default chain length of this check by a short one
-            for k_, v_ in (("--mcmc-steps", "40"), ("--mcmc-burn", "20")):
+            # 2 chains x 3 retained steps: several equally frequent genotype supports in most sample-loci (exact ties)
+            for k_, v_ in (("--mcmc-steps", "13"), ("--mcmc-burn", "10")):
                 args[args.index(k_) + 1] = v_
         e = dict(base_env)
         e["PYTHONHASHSEED"] = hs
